@@ -271,7 +271,27 @@ theorem fwd1 : ∀ (t : Stmt), frag1 t = true → FwdPost t := by
       simp only [iteLoop] at h'
       rw [hi.nil_atStart] at h'; cases h'
     · rw [hA hO] at h'; cases h'
-  | while_ c b k _ _ => intro h; simp [frag1] at h
+  | while_ cc b k _ ihk =>
+    intro h O s hi
+    simp only [frag1, Bool.and_eq_true] at h
+    obtain ⟨W, hA⟩ := wS4_frag_step cc b h.1 O s hi.hlt hi.start
+    have hlw := W.hlt hi.hlt
+    cases cc with
+    | none =>
+      rw [compile_while_frag_none b k h.1]
+      have X := (HeapExt.append (wS4 b O s) [wHb O s] (wHb O s) (by simp) (.sub (wBody O s))).step hlw.1
+      refine ihk h.2 [] _ ⟨⟨by simp, (X.hlt hlw).2⟩, fun h' => ?_, by simp, by simp⟩
+      rw [X.atStart_false hlw.2 hA] at h'; cases h'
+    | some c' =>
+      rw [compile_while_frag_some c' b k h.1]
+      have N := Step.newBlock (wS4 b O s) [wHb O s] hlw.1 (some (wHb O s)) (by simp)
+      have hln := N.hlt hlw
+      have X := (HeapExt.append ((wS4 b O s).newBlock (some (wHb O s))).2 [(wS4 b O s).next, wHb O s] (wHb O s)
+        (by simp) (.ite c' (wBody O s) (wS4 b O s).next)).step hln.1
+      have hlx := X.hlt hln
+      refine ihk h.2 _ _ (Inv.single (hlx.1 _ (by simp)) hlx.2 (X.atStart_false hln.2 (N.atStart_false hlw.2 hA)) ?_)
+      have hne : (wS4 b O s).next ≠ wHb O s := by have := hlw.1 (wHb O s) (by simp); omega
+      simp [CSt.append, CSt.newBlock, hne]
   | brk => intro h; simp [frag1] at h
   | cont => intro h; simp [frag1] at h
   | ret => intro h; simp [frag1] at h
